@@ -132,7 +132,7 @@ CHECKS = {
           "gated Condition, virtual-time channel)."),
     note=("Depth-bounded: all interleavings of the first 64 statement-steps (a complete hand-off by every thread takes about 50); the unwinding "
           "assertion is NOT established and the evidence says so. Quick: 1 waiter + background thread and 2 waiters without one (48 steps), <=1 "
-          "pre-emption each; thorough: 1 waiter + background thread exhaustively and 2 waiters with <=2 pre-emptions (46 steps). Shared integer "
+          "pre-emption each; thorough: the same two configurations with <=2 pre-emptions (with unbounded pre-emptions the 64-step query ran for more than 50 min without an answer). Shared integer "
           "fields updated by constants are modelled generically; other new statement shapes make the run inconclusive. Partial-order reduction (no switch before thread-local statements). Timeouts never "
           "fire in the model; itertools.count atomicity, incoming requests and EOF are outside."),
     technique="bounded model checking over schedules (AST -> CFG -> bit-vector transition relation, z3 SAT, parallel cubes) + replay on real threads"),
